@@ -38,6 +38,7 @@ type Program struct {
 	sentinels  map[*types.Var]bool
 	SpecFilesRead []string
 	srcCache      map[string][]byte
+	allFns        []*ssa.Function
 }
 
 func (p *Program) nextEpoch() int { p.epoch++; return p.epoch }
@@ -620,7 +621,7 @@ func (p *Program) isPlainSentinel(g *ssa.Global) bool {
 func (p *Program) FindFuncs(spec *FuncSpec) []*ssa.Function {
 	var out []*ssa.Function
 	seen := map[*ssa.Function]bool{}
-	for fn := range ssautil.AllFunctions(p.SSA) {
+	for _, fn := range p.moduleFuncs() {
 		if fn.Blocks == nil || fn.Synthetic != "" && !strings.HasPrefix(fn.Synthetic, "instance of") && fn.Synthetic != "package initializer" {
 			continue
 		}
@@ -634,6 +635,68 @@ func (p *Program) FindFuncs(spec *FuncSpec) []*ssa.Function {
 	}
 	sort.Slice(out, func(i, j int) bool { return out[i].String() < out[j].String() })
 	return out
+}
+
+// moduleFuncs enumerates every function of the module's packages: package-level functions,
+// methods of all (also unexported) named types, anonymous functions, and the generic
+// instances referenced from any of those.
+func (p *Program) moduleFuncs() []*ssa.Function {
+	if p.allFns != nil {
+		return p.allFns
+	}
+	seen := map[*ssa.Function]bool{}
+	var work []*ssa.Function
+	add := func(fn *ssa.Function) {
+		if fn != nil && !seen[fn] && p.inModule(fn) {
+			seen[fn] = true
+			work = append(work, fn)
+		}
+	}
+	for _, pkg := range p.SSA.AllPackages() {
+		if pkg.Pkg.Path() != p.Module && !strings.HasPrefix(pkg.Pkg.Path(), p.Module+"/") {
+			continue
+		}
+		var names []string
+		for n := range pkg.Members {
+			names = append(names, n)
+		}
+		sort.Strings(names)
+		for _, n := range names {
+			switch m := pkg.Members[n].(type) {
+			case *ssa.Function:
+				add(m)
+			case *ssa.Type:
+				for _, t := range []types.Type{m.Type(), types.NewPointer(m.Type())} {
+					if nt, ok := m.Type().(*types.Named); ok && nt.TypeParams() != nil && nt.TypeParams().Len() > 0 {
+						continue
+					}
+					ms := p.SSA.MethodSets.MethodSet(t)
+					for i := 0; i < ms.Len(); i++ {
+						add(p.SSA.MethodValue(ms.At(i)))
+					}
+				}
+			}
+		}
+	}
+	for len(work) > 0 {
+		fn := work[len(work)-1]
+		work = work[:len(work)-1]
+		p.allFns = append(p.allFns, fn)
+		for _, af := range fn.AnonFuncs {
+			add(af)
+		}
+		for _, b := range fn.Blocks {
+			for _, in := range b.Instrs {
+				for _, op := range in.Operands(nil) {
+					if f, ok := (*op).(*ssa.Function); ok {
+						add(f)
+					}
+				}
+			}
+		}
+	}
+	sort.Slice(p.allFns, func(i, j int) bool { return p.allFns[i].String() < p.allFns[j].String() })
+	return p.allFns
 }
 
 func (p *Program) FuncSpecs() []*FuncSpec { return p.funcs }
